@@ -120,7 +120,7 @@ fn random_inner(rng: &mut Rng) -> Value {
             m.push(json!([k, *rng.pick(&[0i64, 1, -1, 42, i64::MIN, i64::MAX])]));
         }
     }
-    let paths: [&[u8]; 5] = [b"/bin/sh", b"/tmp/caf\xe9/x", b"", b"rel/\xc3\xa9", b"\xff"];
+    let paths: [&[u8]; 8] = [b"/bin/sh", b"/tmp/caf\xe9/x", b"", b"rel/\xc3\xa9", b"\xff", b"C:\\Windows\\cmd.exe", b"/tmp/a\\b", b"\\"];
     json!({
         "s": *rng.pick(&["1", "a", "", "none", "\u{e9}"]), "m": m, "renamed": *rng.pick(&[0u64, 1, 42, u64::MAX]),
         "hidden": "secret", "p": rng.pick(&paths).to_vec(),
